@@ -63,9 +63,10 @@ def regenerate_constants() -> tuple[bool, str]:
     return p.returncode == 0, p.stdout
 
 
-def lake_build() -> dict:
+def lake_build(modules: list[str] | None = None) -> dict:
     """Builds driver+audit first (needed by the oracle even if a proof breaks),
-    then everything.  Serialised across concurrently running checks."""
+    then the theorem modules of the property being checked (all of them when
+    `modules` is None).  Serialised across concurrently running checks."""
     res = {"driver_ok": False, "proofs_ok": False, "log": ""}
     lock = open(LEAN / ".build.lock", "w")
     fcntl.flock(lock, fcntl.LOCK_EX)
@@ -73,7 +74,7 @@ def lake_build() -> dict:
         p = _run(["lake", "build", "driver", "audit"], cwd=LEAN)
         res["driver_ok"] = p.returncode == 0 and DRIVER.exists()
         res["log"] += p.stdout[-6000:]
-        p = _run(["lake", "build"], cwd=LEAN)
+        p = _run(["lake", "build"] + (["+" + m for m in modules] if modules else []), cwd=LEAN)
         res["proofs_ok"] = p.returncode == 0
         if p.returncode != 0:
             res["log"] += p.stdout[-12000:]
